@@ -501,6 +501,10 @@ class Interp:
         if len(segs) == 1:
             for en in ('Ordering',):
                 if segs[0] in self.enums[en]: return Agg(en, self.enums[en].index(segs[0]), args)
+            cands = [en for en, vs in self.enums.items() if segs[0] in vs]
+            pref = [en for en in getattr(self, 'enum_pref', []) if en in cands]
+            if pref: cands = pref[:1]
+            if len(cands) == 1: return Agg(cands[0], self.enums[cands[0]].index(segs[0]), args)
         raise Unsupported('aggregate ' + rv)
     def binop(self, op, a, b, wt=(64, False)):
         if z3.is_expr(a) or z3.is_expr(b):
@@ -712,7 +716,10 @@ class Interp:
     def call_value(self, f, args):
         if isinstance(f, Ptr): f = f.get()
         if isinstance(f, Closure):
-            return self.run(self.closures[f.span], [Ptr(Cell(Agg('closure', None, f.caps)))] + list(args))
+            cf = self.closures[f.span]
+            env = Agg('closure', None, f.caps)
+            byref = (cf.ltypes.get(1) or '').startswith('&')
+            return self.run(cf, [Ptr(Cell(env)) if byref else env] + list(args))
         if isinstance(f, FnItem): return self.call(f.name, list(args))
         if isinstance(f, PyFn): return f.f(*args)
         raise Unsupported(f'call_value {f!r}')
